@@ -16,6 +16,8 @@ structure SInv (s : Store) (d : Disk) (A C : List Rec) : Prop where
   wrz : s.writer ≠ none → d.zombies = []
   wrr : s.writer ≠ none → s.repairRequired = false
   next : ∀ F ∈ d.files, F.num < s.nextWAL
+  /-- `nextBatchSeqNum` is above every sequence number on disk (and positive) -/
+  seqNext : 0 < s.nextSeq ∧ ∀ F ∈ d.files, ∀ q ∈ F.seqs, q < s.nextSeq
   nogarb : s.repairRequired = false → ∀ F ∈ d.files, F.garbage = false
 
 structure Inv (sys : Sys) : Prop where
@@ -49,7 +51,16 @@ theorem DInv.torn {d : Disk} {A : List Rec} (i : DInv d A) (pre : List LogFile) 
     exact map_upd_last pre F (fun f => { f with garbage := true }) hlt
   have hrec : recsOf (d.setGarbage F.num true).files = recsOf d.files := by
     rw [hfiles, hf, recsOf_snoc, recsOf_snoc]; rfl
-  refine ⟨?_, ?_, ?_, ?_, ?_, ?_, ?_, i.zlowAlt⟩
+  have hseq : ∀ f ∈ (d.setGarbage F.num true).files, SeqOK f := by
+    intro f hfm
+    rw [hfiles] at hfm
+    rcases List.mem_append.mp hfm with h | h
+    · exact i.seq f (by rw [hf]; exact List.mem_append_left _ h)
+    · simp only [List.mem_singleton] at h
+      subst h
+      have hF := i.seq F (by rw [hf]; simp)
+      exact ⟨hF.len, hF.inc, hF.pos, hF.nonempty⟩
+  refine ⟨?_, ?_, ?_, ?_, ?_, ?_, ?_, i.zlowAlt, hseq, i.zseq⟩
   rotate_left 6
   · intro w hw; rw [hrec]; exact i.presAlt w hw
   · rw [hfiles]
@@ -67,21 +78,48 @@ theorem DInv.torn {d : Disk} {A : List Rec} (i : DInv d A) (pre : List LogFile) 
   · exact i.zlow
 
 /-- the batch `B` appended to the log being written -/
-theorem DInv.full {d : Disk} {A B C : List Rec} (i : DInv d A) (pre : List LogFile) (F : LogFile)
-    (hf : d.files = pre ++ [F]) (hc : ∀ G ∈ pre ++ [F], G.garbage = false) (e : Equiv (maxPrune A) B C) :
-    DInv (d.appendBatch F.num B) (A ++ C) ∧
-      (d.appendBatch F.num B).files = pre ++ [{ F with batches := F.batches ++ [B] }] := by
+theorem DInv.full {d : Disk} {A B C : List Rec} (i : DInv d A) (pre : List LogFile) (F : LogFile) (q : Nat)
+    (hf : d.files = pre ++ [F]) (hc : ∀ G ∈ pre ++ [F], G.garbage = false) (e : Equiv (maxPrune A) B C)
+    (hB : B ≠ []) (hq0 : 0 < q) (hq : ∀ q' ∈ F.seqs, q' < q) :
+    DInv (d.appendBatch F.num B q) (A ++ C) ∧
+      (d.appendBatch F.num B q).files = pre ++ [{ F with batches := F.batches ++ [B], seqs := F.seqs ++ [q] }] := by
   have hasc := i.asc
   rw [hf] at hasc
   have hlt := (numsAsc_append_last hasc).2
-  have hfiles : (d.appendBatch F.num B).files = pre ++ [{ F with batches := F.batches ++ [B] }] := by
+  have hfiles : (d.appendBatch F.num B q).files = pre ++ [{ F with batches := F.batches ++ [B], seqs := F.seqs ++ [q] }] := by
     unfold Disk.appendBatch
     simp only [hf]
-    exact map_upd_last pre F (fun f => { f with batches := f.batches ++ [B] }) hlt
-  have hrec : recsOf (d.appendBatch F.num B).files = recsOf d.files ++ B := by
+    exact map_upd_last pre F (fun f => { f with batches := f.batches ++ [B], seqs := f.seqs ++ [q] }) hlt
+  have hrec : recsOf (d.appendBatch F.num B q).files = recsOf d.files ++ B := by
     rw [hfiles, hf, recsOf_snoc, recsOf_snoc]
     simp [recsOfFile, List.append_assoc]
-  refine ⟨⟨?_, ?_, ?_, ?_, ?_, ?_, ?_, i.zlowAlt⟩, hfiles⟩
+  have hseq : ∀ f ∈ (d.appendBatch F.num B q).files, SeqOK f := by
+    intro f hfm
+    rw [hfiles] at hfm
+    rcases List.mem_append.mp hfm with h | h
+    · exact i.seq f (by rw [hf]; exact List.mem_append_left _ h)
+    · simp only [List.mem_singleton] at h
+      subst h
+      have hF := i.seq F (by rw [hf]; simp)
+      refine ⟨by simp [hF.len], ?_, ?_, ?_⟩
+      · simp only
+        rw [List.pairwise_append]
+        refine ⟨hF.inc, by simp, ?_⟩
+        intro a ha b hb
+        simp only [List.mem_singleton] at hb
+        subst hb
+        exact hq a ha
+      · intro q' hq'
+        simp only [List.mem_append, List.mem_singleton] at hq'
+        rcases hq' with h1 | rfl
+        · exact hF.pos q' h1
+        · exact hq0
+      · intro b hb
+        simp only [List.mem_append, List.mem_singleton] at hb
+        rcases hb with h1 | rfl
+        · exact hF.nonempty b h1
+        · exact hB
+  refine ⟨⟨?_, ?_, ?_, ?_, ?_, ?_, ?_, i.zlowAlt, hseq, i.zseq⟩, hfiles⟩
   rotate_left 6
   · intro w hw; rw [hrec]; exact (i.presAlt w hw).append e
   · rw [hfiles]
@@ -97,32 +135,28 @@ theorem DInv.full {d : Disk} {A B C : List Rec} (i : DInv d A) (pre : List LogFi
       have := hc F (by simp)
       simp [this] at hg
   · exact i.zclean
-  · have hw : (d.appendBatch F.num B).wmVal = d.wmVal := rfl
-    rw [hw, hfiles]
-    have : recsOf (pre ++ [{ F with batches := F.batches ++ [B] }]) = recsOf d.files ++ B := by
-      rw [hf, recsOf_snoc, recsOf_snoc]
-      simp [recsOfFile, List.append_assoc]
-    rw [this]; exact i.pres.append e
+  · have hw : (d.appendBatch F.num B q).wmVal = d.wmVal := rfl
+    rw [hw, hrec]; exact i.pres.append e
   · exact i.zlow
 
 /-- the watermark file replaced (or about to be) by a value between the old one and the highest
 acknowledged prune; no pending unlinks; `alt`: what a crash may bring back -/
-theorem DInv.setWm {d : Disk} {A : List Rec} (i : DInv d A) (w : Nat) (t : Bool) (alt : Option (Option Nat))
+theorem DInv.setWm {d : Disk} {A : List Rec} (i : DInv d A) (w : Nat) (t : Bool) (alt : List (Option Nat))
     (h1 : d.wmVal ≤ w) (h2 : w ≤ maxPrune A) (hz : d.zombies = [])
-    (halt : ∀ w', alt = some w' → Presents (w'.getD 0) (recsOf d.files) A) :
+    (halt : ∀ w' ∈ alt, Presents (w'.getD 0) (recsOf d.files) A) :
     DInv { d with wm := some w, tmp := t, wmAlt := alt } A := by
-  refine ⟨i.asc, i.garb, fun _ => hz, ?_, ?_, ?_, halt, ?_⟩
+  refine ⟨i.asc, i.garb, fun _ => hz, ?_, ?_, ?_, halt, ?_, i.seq, i.zseq⟩
   · intro z hzm; simp only [hz] at hzm; cases hzm
   · exact i.pres.raise h1 h2
   · simp only [hz]; simp [recsOf, Low]
   · intro w' _; simp only [hz]; simp [recsOf, Low]
 
 theorem DInv.setTmp {d : Disk} {A : List Rec} (i : DInv d A) (t : Bool) : DInv { d with tmp := t } A :=
-  ⟨i.asc, i.garb, i.zgarb, i.zclean, i.pres, i.zlow, i.presAlt, i.zlowAlt⟩
+  ⟨i.asc, i.garb, i.zgarb, i.zclean, i.pres, i.zlow, i.presAlt, i.zlowAlt, i.seq, i.zseq⟩
 
 /-- a directory sync: pending unlinks and an undurable rename become durable -/
-theorem DInv.synced {d : Disk} {A : List Rec} (i : DInv d A) : DInv { d with zombies := [], wmAlt := none } A :=
-  ⟨i.asc, i.garb, fun _ => rfl, by simp, i.pres, by simp [recsOf, Low], by simp, by simp⟩
+theorem DInv.synced {d : Disk} {A : List Rec} (i : DInv d A) : DInv { d with zombies := [], wmAlt := [] } A :=
+  ⟨i.asc, i.garb, fun _ => rfl, by simp, i.pres, by simp [recsOf, Low], by simp, by simp, i.seq, by simp⟩
 
 /-- `Presents` survives dropping any logs whose records are all at or below the highest
 acknowledged prune, once the watermark is that prune. -/
@@ -157,7 +191,7 @@ theorem Presents.filter {w : Nat} {fs : List LogFile} {A : List Rec} (keep : Log
 /-- `cleanupObsoleteWALs`: some logs, all holding only records at or below the watermark, are
 unlinked -/
 theorem DInv.gc {d : Disk} {A : List Rec} (i : DInv d A) (dead : LogFile → Bool) (hw : d.wmVal = maxPrune A)
-    (ha : d.wmAlt = none) (hc : ∀ G ∈ d.files, G.garbage = false)
+    (ha : d.wmAlt = []) (hc : ∀ G ∈ d.files, G.garbage = false)
     (hl : ∀ G ∈ d.files, dead G = true → Low (maxPrune A) (recsOfFile G)) :
     DInv { d with files := d.files.filter (fun f => !dead f),
                   zombies := d.files.filter (fun f => dead f) } A := by
@@ -167,7 +201,8 @@ theorem DInv.gc {d : Disk} {A : List Rec} (i : DInv d A) (dead : LogFile → Boo
     obtain ⟨G, hG, hr'⟩ := List.mem_flatMap.mp hr
     have hm := List.mem_filter.mp hG
     exact hl G hm.1 hm.2 r hr'
-  refine ⟨?_, ?_, ?_, ?_, ?_, ?_, ?_, ?_⟩
+  refine ⟨?_, ?_, ?_, ?_, ?_, ?_, ?_, ?_, fun f hf => i.seq f (List.mem_filter.mp hf).1,
+    fun f hf => i.seq f (List.mem_filter.mp hf).1⟩
   · have := i.asc
     unfold numsAsc at *
     exact this.sublist (List.Sublist.map _ List.filter_sublist)
